@@ -547,7 +547,7 @@ var ownedSeqRules = map[string][]string{
 	"C08": {"size", "panic"},
 	"C11": {"model", "twin", "size", "range-", "panic"},
 	"C12": {"twin", "panic"},
-	"C15": {"janitor-", "ledger-missing", "ledger-count", "size", "panic"},
+	"C15": {"janitor-", "ledger-", "size", "panic"},
 	"C13": {"deadlock", "livelock"},
 	"C05": {"fn-calls", "panic"},
 }
